@@ -89,7 +89,7 @@ def run_ops(ctx: Ctx, n_cases: int):
         tags = []
         Xrows = []
         for _ in range(na):
-            g, tg = U.gen_group(rng, name, eps)
+            g, tg = U.gen_group(rng, name, eps, wide=0.12)
             Xrows.append(g)
             tags.append(tg)
         Xt, X64 = U.to_dtype_exact(Xrows, dtype)
@@ -100,7 +100,7 @@ def run_ops(ctx: Ctx, n_cases: int):
         sig = ("ops", op, name, dtype, tuple(sorted(set(tags)))[:3], sa, sb)
         try:
             if op in ("Mul", "Mul*"):
-                Yrows = [U.gen_group(rng, name, eps)[0] for _ in range(nb)]
+                Yrows = [U.gen_group(rng, name, eps, wide=0.12)[0] for _ in range(nb)]
                 Yt, Y64 = U.to_dtype_exact(Yrows, dtype)
                 Y = P.LieTensor(Yt.reshape(sb + (U.GDIM[name],)), ltype=U.ltype(name))
                 Y64 = Y64.reshape(sb + (U.GDIM[name],))
@@ -265,9 +265,17 @@ def law_case(ctx: Ctx, case) -> bool:
         if float(tdist(name, a, b).max()) > 4 * t0 * mags(X, Y, Z):
             ctx.fail(case, f"assoc: (X@Y)@Z != X@(Y@Z) for {name} ({dtype}): {float(tdist(name, a, b).max()):.3e}")
         I = P.identity_like(X)
+        xv = X.tensor().double()
+        tmag = float(xv[..., U.TSL[name]].abs().max()) if U.TSL[name] is not None else 0.0
+        sinv = max(1.0, 1.0 / float(xv[..., U.SIDX[name]].min())) if U.SIDX[name] is not None else 1.0
         for nm, v in (("X@Inv(X)", X @ X.Inv()), ("Inv(X)@X", X.Inv() @ X)):
-            if float(tdist(name, v, I).max()) > 4 * t0 * mags(X) * smax(X):
-                ctx.fail(case, f"inverse: {nm} != identity for {name} ({dtype}): {float(tdist(name, v, I).max()):.3e}")
+            vv = v.tensor().double()
+            dq = float(torch.minimum((vv[..., U.QSL[name]] - I.tensor().double()[..., U.QSL[name]]).norm(dim=-1),
+                                     (vv[..., U.QSL[name]] + I.tensor().double()[..., U.QSL[name]]).norm(dim=-1)).max())
+            ds = float((vv[..., U.SIDX[name]] - 1).abs().max()) if U.SIDX[name] is not None else 0.0
+            dtr = float(vv[..., U.TSL[name]].abs().max()) if U.TSL[name] is not None else 0.0
+            if dq > 4 * t0 or ds > 4 * t0 or dtr > 4 * t0 * (1 + tmag * sinv):
+                ctx.fail(case, f"inverse: {nm} != identity for {name} ({dtype}): quaternion {dq:.2e}, scale {ds:.2e}, translation {dtr:.2e}")
         Mx, My, Mxy = X.matrix().double(), Y.matrix().double(), (X @ Y).matrix().double()
         sc = float(Mx.abs().max()) * float(My.abs().max()) * 4 + 1
         if float((Mx @ My - Mxy).abs().max()) > 4 * t0 * sc:
@@ -310,7 +318,7 @@ def run_laws(ctx: Ctx, n_cases: int):
         eps = common.EPS[dtype]
         els, tags = [], []
         for _ in range(3):
-            g, tg = U.gen_group(rng, name, eps, thi=100.0, shi=4.0)
+            g, tg = U.gen_group(rng, name, eps, thi=100.0, shi=4.0, wide=0.1)
             els.append(U.to_dtype_exact([g], dtype)[1][0].tolist())
             tags.append(tg)
         p3 = U.vec(rng, U.gen_mag(rng, eps, 100.0))
@@ -444,7 +452,56 @@ def run_model_history(ctx, name, eps, x0, seq):
         p.wait(timeout=30)
 
 
+def run_corners(ctx: Ctx):
+    """deterministic corpus run first on every seed: extreme-but-valid scales (far below eps / above 1/eps),
+    angles at 0 / tiny / pi, translations 0 / tiny / large — every law on the real code, and Inv / Mul / Act
+    against the model"""
+    P = U.pp()
+    lines, metas = [], []
+    for name in U.GROUPS:
+        for dtype in ("float64", "float32"):
+            eps = common.EPS[dtype]
+            sigmas = [0.0] if U.SIDX[name] is None else [-30.0, -20.0, -17.0, -12.0, -3.0, 0.0, 3.0, 12.0, 17.0, 30.0] + \
+                ([-40.0, -37.0, 37.0, 40.0] if dtype == "float64" else [])
+            for si, sg in enumerate(sigmas):
+                for ai, ang in enumerate([0.0, 1e-9, 1.0, math.pi - 1e-9]):
+                    for ti, tm in enumerate([0.0, 1e-3, 50.0] if U.TSL[name] is not None else [0.0]):
+                        def el(a, t, sgm, flip):
+                            d = [0.6, 0.0, 0.8]
+                            q = [d[0] * math.sin(a / 2), 0.0, d[2] * math.sin(a / 2), math.cos(a / 2)]
+                            if flip:
+                                q = [-v for v in q]
+                            out = []
+                            if U.TSL[name] is not None:
+                                out += [t * 0.48, -t * 0.6, t * 0.64]
+                            out += q
+                            if U.SIDX[name] is not None:
+                                out.append(math.exp(sgm))
+                            return U.to_dtype_exact([out], dtype)[1][0].tolist()
+                        X = el(ang, tm, sg, (si + ai) % 2 == 1)
+                        Y = el(0.7, 0.3, -sg / 2 if abs(sg) <= 20 else 0.0, False)
+                        Z = el(2.0, 1.0, 0.1 if U.SIDX[name] is not None else 0.0, True)
+                        case = {"stream": "laws", "type": name, "dtype": dtype, "X": X, "Y": Y, "Z": Z,
+                                "p3": [0.4, -1.1, 0.8], "p4": [0.4, -1.1, 0.8, 0.0 if (si + ti) % 2 else 1.0]}
+                        law_case(ctx, case)
+                        ctx.note_case(("corner", name, dtype, sg, ang, tm), True)
+                        ctx.count(f"corner.{name}.{dtype}")
+                        try:
+                            Zi = U.lt(name, [X], U.dt(dtype)).Inv().tensor().double()[0].tolist()
+                        except Exception as e:
+                            ctx.fail(case, f"raises: Inv raised {type(e).__name__}")
+                            continue
+                        _, t, sc = blocks(name, X)
+                        tsc = 1e-300 + (U.max_abs(t) * 3 / (sc if sc else 1.0) if t is not None else 1.0)
+                        lines.append(U.model_call(f"{name}.Inv", eps, X))
+                        metas.append(({"stream": "corner", "op": "Inv", "type": name, "dtype": dtype, "X": X}, name, dtype, Zi, tsc))
+    reps = ctx.driver.run(lines)
+    for rep, (case, name, dtype, got, tsc) in zip(reps, metas):
+        cmp_group(ctx, "corner", case, name, got, U.fl(common.reply_nums(rep)), dtype, tsc, fix_sign=True)
+
+
 def run(ctx: Ctx):
+    run_corners(ctx)
     run_ops(ctx, ctx.pick(260, 3000))
     run_laws(ctx, ctx.pick(300, 4000))
     if ctx.quick:
